@@ -36,7 +36,10 @@ Strs == {[id |-> "str:" \o t, cls |-> "str", s |-> Unescape(t)] : t \in StrTexts
 Bools == {[id |-> "bool:t", cls |-> "bool", b |-> TRUE], [id |-> "bool:f", cls |-> "bool", b |-> FALSE]}
 Fallbacks == {[id |-> x, cls |-> "fallback"] : x \in
   {"nil", "nilptr:int", "nilptr:string", "nilptr:struct", "nilptr:slice", "nilptr:map", "nilptr:vstringer", "nilptr:pstringer",
-   "nilptr:vnumber", "nilptr:vboolean", "slice:int:1,2", "slice:int:", "slice:nilint", "map:ss:k=v", "map:nilss", "struct:person",
+   "nilptr:vnumber", "nilptr:vboolean",
+   (* nil pointers to types whose methods have POINTER receivers: methods that dereference (a call would panic) and methods
+      that tolerate nil and answer something (a call would return it instead of the fallback) *)
+   "nilptr:pstrict", "nilptr:pnumber", "nilptr:pboolean", "nilptr:ptolerant", "slice:int:1,2", "slice:int:", "slice:nilint", "map:ss:k=v", "map:nilss", "struct:person",
    "struct:empty", "chan", "func", "complex", "ptr:num:int:192", "ptr:str:abc", "ptr:struct:person", "array3", "ptr:slice:int:1"}}
 Stringers == {[id |-> p \o t, cls |-> "str", s |-> Unescape(t)] : p \in {"stringer:", "pstringer:", "ptr:stringer:"},
                                                                 t \in {"abc", "1.5", "", "42", "-2"}}
@@ -46,7 +49,7 @@ Decimals == {[id |-> "decimal:" \o ToString(q), cls |-> "num", q |-> q] : q \in 
 Plain == Nums \cup Bigs \cup Strs \cup Bools \cup Fallbacks \cup Stringers \cup Numbers \cup Booleans \cup Decimals
 SafeInner == {d \in Plain : d.id \in {"num:int8:192", "num:float64:96", "str:abc", "str:1.5", "str:", "bool:t", "bool:f", "nil",
                                      "stringer:abc", "number:96", "boolean:t", "decimal:96", "nilptr:vstringer", "slice:int:1,2",
-                                     "num:uint16:4194240", "num:float32:-160"}}
+                                     "num:uint16:4194240", "num:float32:-160", "nilptr:pstrict", "nilptr:pnumber", "nilptr:ptolerant"}}
 Safes == {[d EXCEPT !.id = "safe:" \o ToString(n) \o ":" \o d.id] : d \in SafeInner, n \in 1..3}
 (* wrappers that are not stick's own safeValue type (an application's implementation of the SafeValue interface), nested *)
 CSafes == {[d EXCEPT !.id = "csafe:" \o ToString(n) \o ":" \o d.id] : d \in SafeInner, n \in 1..3}
